@@ -91,7 +91,7 @@ def make_plan(seed: int, tier: str, index: int) -> dict[str, Any]:
         # every corrupted variant of this chart also carries a run of unparsable lines in its
         # sync section (thresholds on "too many unparsable lines")
         plan["sync_junk"] = {"n": 17 + (index // 12) % 60, "kind": index % 8, "stride": 1 + index % 3,
-                             "tail": (index // 12) % 3}
+                             "pos": (index // 12) % 5}
     if f.random() < 0.25:
         # the stored file is read through a reader whose sized reads / readline return short
         # (legal); a correct tree reads it all the same
@@ -259,14 +259,14 @@ def apply_corruption(doc: dict[str, Any], c: dict[str, Any],
         d["meta"] = [[a, ("0" if a == "Resolution" else b)] for a, b in d["meta"]]
     label, info = classify(d, sync, res0)
     if junk:
-        # storage fault on top: unparsable lines (skipped and reported, by C14) in front of and
-        # between the sync lines - they change nothing about what the tempo data says, so the
+        # storage fault on top: a run of unparsable lines (skipped and reported, by C14) after the
+        # first ``pos`` sync lines - they change nothing about what the tempo data says, so the
         # verdict demanded for the file is the same (a dispatcher that gives up on a noisy
         # section never sees the corruption behind the noise)
         lines = [SYNC_JUNK[(junk["kind"] + i * junk["stride"]) % len(SYNC_JUNK)].replace("{t}", str(7 * i))
                  for i in range(junk["n"])]
-        k = junk["n"] - junk["tail"]
-        sync = lines[:k] + sync[:1] + lines[k:] + sync[1:]
+        pos = min(junk["pos"], len(sync))
+        sync = sync[:pos] + lines + sync[pos:]
     secs = gen.sections(d)
     secs[1][1] = sync
     return gen.render_sections(secs), label, info
